@@ -52,6 +52,13 @@ pub struct Case {
     /// busy sleepers never block (heartbeat in a tight loop with a syscall-free body)
     pub sanitize: bool,
     pub with_crash: bool,
+    /// stop timeout handed to the writer (None = generous 2 s); 0 makes the stop step time out
+    /// after SIGSTOP was already sent
+    #[serde(default)]
+    pub stop_timeout_ms: Option<u8>,
+    /// the target's main thread has exited (zombie thread-group leader never reaches state T)
+    #[serde(default)]
+    pub leader_exits: bool,
 }
 
 #[derive(Debug, Clone, PartialEq, Eq)]
@@ -120,6 +127,9 @@ fn judge_alive(t: &Target, threads: &[(u32, i32, u8)], spec: &TSpec, gone: &[i32
         let all: Vec<(i32, u8, usize)> = std::iter::once((t.pid, 255u8, usize::MAX)).chain(threads.iter().enumerate().map(|(i, (_, tid, k))| (*tid, *k, i))).collect();
         for (tid, kind, i) in &all {
             if gone.contains(tid) {
+                continue;
+            }
+            if *kind == 255 && spec.leader_exit {
                 continue;
             }
             let Some((state, tracer)) = t.thread_status(*tid) else {
@@ -235,6 +245,7 @@ pub fn check(c: &Case) -> Verdict {
             n += 1;
         }
     }
+    b.spec.leader_exit = c.leader_exits;
     let spec = b.spec.clone();
     let t = match Target::spawn(&spec, scratch) {
         Ok(t) => t,
@@ -248,13 +259,16 @@ pub fn check(c: &Case) -> Verdict {
     let sleepers: Vec<(u32, i32)> = threads.iter().filter(|(_, _, k)| *k == K_SLEEPER).map(|(id, tid, _)| (*id, *tid)).collect();
     let all_ids: Vec<u32> = threads.iter().map(|(id, _, _)| *id).collect();
     let attach_order: Vec<i32> = std::iter::once(pid).chain(threads.iter().map(|(_, tid, _)| *tid)).collect();
-    let mut opts = DumpOpts { blamed: pid, sanitize: c.sanitize, app_memory: vec![(appmap + 5, 3000)], ..Default::default() };
+    // with a zombie leader the stop step always runs into its timeout: keep it short
+    let stop_timeout = c.stop_timeout_ms.map(|v| v as u64).or(if c.leader_exits { Some(15) } else { None });
+    let first_worker = threads.iter().find(|(_, _, k)| *k != K_EXITER).map(|(_, tid, _)| *tid).unwrap_or(pid);
+    let mut opts = DumpOpts { blamed: if c.leader_exits { first_worker } else { pid }, sanitize: c.sanitize, app_memory: vec![(appmap + 5, 3000)], stop_timeout_ms: stop_timeout, ..Default::default() };
     if c.with_crash {
         let mut s = 99u64;
         let mut gregs: Vec<i64> = (0..23).map(|_| splitmix(&mut s) as i64).collect();
         gregs[crate::vcore::regs::REG_RSP] = (appmap + 64) as i64;
         gregs[crate::vcore::regs::REG_RIP] = (appmap + 128) as i64;
-        opts.crash = Some(CrashContext2 { gregs, fp: fpstate_of_fx(&sentinel_fx(3)), signo: 11, code: 1, addr: 0, tid: pid });
+        opts.crash = Some(CrashContext2 { gregs, fp: fpstate_of_fx(&sentinel_fx(3)), signo: 11, code: 1, addr: 0, tid: opts.blamed });
     }
     let mut classes: Vec<String> = vec![];
     let mut dumps = 0u64;
@@ -354,10 +368,14 @@ pub fn check(c: &Case) -> Verdict {
     if !gone.is_empty() {
         classes.push("thread-exit-before-attach".into());
     }
+    if c.stop_timeout_ms == Some(0) || c.leader_exits {
+        classes.push("stop-step-times-out-after-SIGSTOP".into());
+    }
 
     // ---- 2. every destination call failing, as error and as panic ----------------------
     if matches!(out, DumpOutcome::Ok(_)) {
-        for k in 0..n_calls {
+        let step = if c.leader_exits { 9 } else { 1 };
+        for k in (0..n_calls).step_by(step) {
             for fault in [Fault::ErrAt(k), Fault::PanicAt(k)] {
                 let mut w = make_writer(pid, &opts);
                 let mut dest = Dest::new(vec![], 0).with_fault(fault);
@@ -376,8 +394,8 @@ pub fn check(c: &Case) -> Verdict {
                 }
             }
         }
-        count("destination-fault-points", 2 * n_calls);
-        classes.push("all-destination-fault-points".into());
+        count("destination-fault-points", 2 * (n_calls / step as u64));
+        classes.push(if step == 1 { "all-destination-fault-points".into() } else { "every-9th-destination-fault-point(zombie-leader)".into() });
     }
 
     // ---- 3. fail-point subsets ----------------------------------------------------------
@@ -436,8 +454,10 @@ pub fn case_strategy() -> impl Strategy<Value = Case> {
         any::<bool>(),
         any::<bool>(),
         any::<bool>(),
+        prop_oneof![5 => Just(None), 2 => Just(Some(0u8)), 1 => Just(Some(1u8)), 1 => Just(Some(40u8))],
+        proptest::bool::weighted(0.15),
     )
-        .prop_map(|(mut threads, signals, stop_failspot, failmasks, cue_exiters, sanitize, with_crash)| {
+        .prop_map(|(mut threads, signals, stop_failspot, failmasks, cue_exiters, sanitize, with_crash, stop_timeout_ms, leader_exits)| {
             let mut burners = 0;
             for k in threads.iter_mut() {
                 if *k == K_SPINNER {
@@ -447,7 +467,7 @@ pub fn case_strategy() -> impl Strategy<Value = Case> {
                     }
                 }
             }
-            Case { threads, signals, stop_failspot, failmasks, cue_exiters, sanitize, with_crash }
+            Case { threads, signals, stop_failspot, failmasks, cue_exiters, sanitize, with_crash, stop_timeout_ms, leader_exits }
         })
 }
 
